@@ -20,7 +20,7 @@ GLUE = {
     "C06": ["A-aead: authenticity is AEAD unforgeability (aws-lc/ring through FFI), not verifiable here",
             "glue unverified: that every received packet is handed to validate_and_decrypt_packet (connection_id_mapper, ConnectionImpl); inside it, decrypt -> duplicate gate -> delivery is decided by layer X, header unprotection by layer F"],
     "C08": ["glue unverified: on_processed_packet is only called after successful processing (packet spaces); ack timer polled by ConnectionImpl; congestion/amplification gating of ACK-only packets"],
-    "C09": ["glue unverified: validation of ACK ranges (Context::validate_packet_ack) and ConnectionImpl's calls into recovery::Manager (decided by layer X: process_acks orchestration after the ranges, the inner loop of process_ack_range, update_congestion_control, detect_lost_packets, the byte accounting of remove_lost_packets and process_new_acked_packets, on_packet_sent, on_timeout, on_retry_packet, on_packet_number_space_discarded are decided by layer X; packet::number::Map::remove_range is an assumed callee), ConnectionImpl timers"],
+    "C09": ["glue unverified: ConnectionImpl's calls into recovery::Manager (decided by layer X: ACK-range validation before any effect, process_acks orchestration after the ranges, the inner loop of process_ack_range, update_congestion_control, detect_lost_packets, the byte accounting of remove_lost_packets and process_new_acked_packets, on_packet_sent, on_timeout, on_retry_packet, on_packet_number_space_discarded are decided by layer X; packet::number::Map::remove_range is an assumed callee), ConnectionImpl timers"],
     "C10": ["A-libm: cbrtf is replaced by a nondeterministic model (finite, sign-preserving, |r| <= |x|+1)",
             "A-env: HybridSlowStart::use_hystart_parameter() (reads an environment variable) is stubbed by an arbitrary bool",
             "BBRv2: only the minimum-window floor functions are under contract, not the BBR state machine",
